@@ -229,6 +229,17 @@ func main() {
 		for _, n := range names {
 			fmt.Println(n)
 		}
+	case "ctxselects":
+		// lists every blocking select of the module with a ctx.Done() case and a value-carrying receive (the D22 family)
+		fs.Parse(os.Args[2:])
+		p, err := load(loadOpts{dir: *repo})
+		if err != nil {
+			fmt.Println("load failed:", err)
+			os.Exit(2)
+		}
+		for _, s := range ctxResultSelects(p) {
+			fmt.Printf("%s %s polls=%v elem=%s\n", p.pos(instrPos(s.sel)), funcName(s.fn), s.polls, s.elem)
+		}
 	case "dumpfacts":
 		fs.Parse(os.Args[2:])
 		p, err := load(loadOpts{dir: *repo})
